@@ -105,7 +105,7 @@ func (h *H) Gen(rng *rand.Rand, tier, prop string) core.Cfg {
 		ops := make([]AddOp, n)
 		for i := range ops {
 			ops[i].Size = core.Between(rng, 1, 100)
-			if !h.retry && core.Chance(rng, 0.15) {
+			if core.Chance(rng, 0.15) {
 				ops[i].Kind = core.Between(rng, 1, 2)
 			}
 			switch {
@@ -905,7 +905,8 @@ func (r *run) evaluateRetry() {
 				if e.fails != 1 {
 					o.Violate("C09", "dead-queue-handoff-count", "event %d handed to the dead queue %d times", e.id, e.fails)
 				}
-				if e.dlqSent != 1 {
+				// a child-parent event is hidden from the send function: it is "sent" only as part of a batch that has other events
+				if e.dlqSent != 1 && !(e.op.Kind == 2 && e.dlqSent == 0) {
 					o.Violate("C09", "dead-queue-send-count", "event %d sent by the dead-queue output %d times", e.id, e.dlqSent)
 				}
 				if !r.legitBlocked && (len(e.commits) != 1 || e.commits[0].issuer != "dlq") {
